@@ -1092,9 +1092,9 @@ instance (rs : List (Outcome Out)) : Decidable (InContract rs) :=
   * what the collector keeps is what `GC_Mark` marks: `Cello.Heap.collect` (the model of src/GC.c proved complete in C01) run
     on the translation `toObj`, which spells out what each type's Mark instance hands to the collector — Array_Mark the first
     `nitems` items, Table_Mark the slots below the bound read from the source (`CelloGen.Cfg.tableMarkBound`), Tree_Mark every
-    node in order, List_Mark every node, Tuple_Mark the items up to Terminal, Thread_Mark its table when it is the marking
-    thread's own object (it is: `GC_Mark` passes `current(Thread)`); Ref, Box, KCell and
-    Tracked have no Mark instance and are scanned conservatively, word by word;
+    node in order, List_Mark every node, Tuple_Mark the items up to Terminal, Thread_Mark the table of the Thread object it
+    is given, whichever thread marks (the running thread's object, which `GC_Mark` hands over itself: `threadObj`; and any
+    Thread object a variable holds: `Cell.thread`); Ref, Box, KCell and Tracked have no Mark instance and are scanned conservatively, word by word;
   * the two coincide only if every Mark instance covers everything the container holds: that is lemma `refs_fields`
     (CelloProofs/Lemmas/CfgKeep.lean), and it is what a change like "Table_Mark walks `nitems` slots" falsifies. -/
 namespace Keep
@@ -1104,7 +1104,7 @@ inductive Side where
 deriving DecidableEq, Repr, Inhabited
 
 inductive Kind where
-  | array | list | tableV | tableK | treeV | treeK | tuple | chain | tls
+  | array | list | tableV | tableK | treeV | treeK | tuple | chain | tls | thread
 deriving DecidableEq, Repr, Inhabited
 
 def Kind.isSeq : Kind → Bool
@@ -1128,6 +1128,11 @@ inductive Cell where
   | table (side : Side) (t : Cello.Table.Tab Int Nat)
   /-- `Tree`, the same two element layouts; kept sorted by key (the in-order walk of Tree_Iter_Init/Next) -/
   | tree (side : Side) (kvs : List (Int × Nat))
+  /-- a `Thread` object made with `new(Thread, f)` that a variable of the program holds — not started, or started and joined
+      — used through its Get instance: `set(t, key, obj)` / `get(t, key)` / `rem(t, key)` work on `t->tls`, its own
+      `new_raw(Table, String, Ref)` (unmanaged; freed by Thread_Del), whichever thread calls them.  Key "keep<h>_<k>" ↦ Ref
+      to the object, newest first. -/
+  | thread (kvs : List (Int × Nat))
 
 instance : Inhabited Cell := ⟨.ref false none⟩
 
@@ -1144,6 +1149,7 @@ def Cell.refs : Cell → List Nat
   | .list xs => xs
   | .table _ t => (tabEntries t).map (·.2)
   | .tree _ kvs => kvs.map (·.2)
+  | .thread kvs => kvs.map (·.2)
 
 abbrev KHeap := List (Nat × Cell)
 
@@ -1151,7 +1157,7 @@ abbrev KHeap := List (Nat × Cell)
 structure Slot where
   h : Nat
   kind : Kind
-  root : Option Nat        -- the container object; `none` for thread-local storage
+  root : Option Nat        -- the container object; `none` for thread-local storage of the running thread
 deriving Repr
 
 structure KSt where
@@ -1200,6 +1206,8 @@ def toObj : Cell → Cello.Heap.Obj
       | none => []
       | some e => entryObjs side e.key e.val))
   | .tree side kvs => .cont "Tree" (kvs.flatMap (fun p => entryObjs side p.1 p.2))   -- Tree_Mark: in-order walk
+  | .thread kvs => .thr "Thread" (.cont "Table" (kvs.flatMap (fun e => [.raw "String" [], .raw "Ref" [addr e.2]])))
+      -- Thread_Mark: `mark(t->tls, gc, f)` for ANY Thread object → Table_Mark of its String ↦ Ref table
 
 theorem lookup_mem_fst {β : Type} (i : Nat) (b : β) : ∀ (l : List (Nat × β)), l.lookup i = some b → (i, b) ∈ l
   | [], h => by simp [List.lookup] at h
@@ -1235,9 +1243,8 @@ def toHeap (s : KSt) : Cello.Heap.Heap where
         exact addr_div a hc.1 hc.2
     · cases he
 
-/-- the current thread as `GC_Mark` sees it: `mark(current(Thread), …)` → Thread_Mark, whose test `self is current(Thread)`
-    (fix 80c795e) holds for this object → Table_Mark of the thread-local table (String ↦ Ref).  Thread objects of other
-    threads are not part of a keep program (single thread; no holder kind stores a Thread). -/
+/-- the current thread as `GC_Mark` sees it: `mark(current(Thread), …)` → Thread_Mark → Table_Mark of the thread-local table
+    (String ↦ Ref).  (Thread objects the program made itself are blocks of the heap: `Cell.thread`.) -/
 def threadObj (s : KSt) : Cello.Heap.Obj :=
   .thr "Thread" (.cont "Table" (s.tls.flatMap (fun e => [.raw "String" [], .raw "Ref" [addr e.2]])))
 
@@ -1309,6 +1316,9 @@ inductive KOp where
   | hchurn (m : Int)
   | hdrop (h : Nat)
   | hdel (h : Nat)
+  /-- `call(t, …); join(t);` on a Thread holder: the started thread, whose `current(Thread)` is `t`, reads every entry back
+      through `get(current(Thread), key)` and reports how many there are and the sum of their payloads -/
+  | hrun (h : Nat)
   | gc
 deriving Repr, Inhabited
 
@@ -1317,6 +1327,7 @@ inductive KOut where
   | got (ident pay : Int)
   | read (items : List (Int × Int × Int)) (stat : Option (Nat × Nat))
   | churn (c : Int)
+  | ran (n : Nat) (sum : Int)
 deriving DecidableEq, Repr, Inhabited
 
 /-- what an operation does to the state: blocks written (`none` = `del`), how many blocks it allocated, the new holder
@@ -1390,6 +1401,7 @@ def elems (v : View) (s : Slot) : Option (List (Int × Nat)) :=
     | .treeV, some (.tree _ kvs) => some kvs
     | .treeK, some (.tree _ kvs) => some kvs
     | .chain, some (.ref _ v0) => (chainWalk v.get depthCap v0).map (fun ps => indexed (ps.map (·.2)))
+    | .thread, some (.thread kvs) => some kvs
     | _, _ => none
   | _, none => none
 
@@ -1408,6 +1420,7 @@ def emptyCell : Kind → Cell
   | .tuple => .tuple []
   | .chain => .ref false none
   | .tls => .ref false none
+  | .thread => .thread []
 
 def maxH : Nat := 8
 def maxElems : Nat := 120
@@ -1472,6 +1485,7 @@ def plan (op : KOp) (v : View) : Option (Upd × KOut) :=
         | .ok tb' => some ({ same with writes := [tw, (r, some (.table side tb'))], fresh := 1, used := used }, .unit)
         | .error _ => none
       | some (.tree side kvs) => some ({ same with writes := [tw, (r, some (.tree side (treeIns (k, t) kvs)))], fresh := 1, used := used }, .unit)
+      | some (.thread kvs) => some ({ same with writes := [tw, (r, some (.thread ((k, t) :: kvs)))], fresh := 1, used := used }, .unit)
       | some (.ref hb v0) =>
         match chainWalk v.get depthCap v0 with
         | none => none
@@ -1533,6 +1547,7 @@ def plan (op : KOp) (v : View) : Option (Upd × KOut) :=
             | .ok (tb', _) => some ({ same with writes := (r, some (.table side tb')) :: kill }, .unit)
             | .error _ => none
           | some (.tree side kvs) => some ({ same with writes := (r, some (.tree side (kvs.filter (fun x => !(x.1 == k))))) :: kill }, .unit)
+          | some (.thread kvs) => some ({ same with writes := (r, some (.thread (kvs.filter (fun x => !(x.1 == k))))) :: kill }, .unit)
           | some (.ref hb v0) =>
             match chainWalk v.get depthCap v0 with
             | none => none
@@ -1572,6 +1587,7 @@ def plan (op : KOp) (v : View) : Option (Upd × KOut) :=
       | some (.tuple xs) => some ({ same with writes := [(r, some (.tuple (xs.take n.toNat)))] }, .unit)
       | some (.table side tb) => some ({ same with writes := [(r, some (.table side (Cello.Table.clear tb)))] }, .unit)
       | some (.tree side _) => some ({ same with writes := [(r, some (.tree side []))] }, .unit)
+      | some (.thread _) => some ({ same with writes := [(r, some (.thread []))] }, .unit)
       | some (.ref hb v0) =>
         if n = 0 then some ({ same with writes := [(r, some (.ref hb none))] }, .unit) else
         match chainWalk v.get depthCap v0 with
@@ -1618,6 +1634,17 @@ def plan (op : KOp) (v : View) : Option (Upd × KOut) :=
           | some (.table _ tb) => some (tb.n, ((tb.slots.toList.drop tb.nitems).filter (·.isSome)).length)
           | _ => none
         some (same, .read items stat)
+  | .hrun h =>
+    if h ≥ maxH then none else
+    match v.slots.find? (fun s => s.h == h) with
+    | none => none
+    | some s =>
+    match s.kind, elems v s with
+    | .thread, some es =>
+      match allSome (es.map (fun e => (readTracked v e.2).map (·.2))) with
+      | none => none
+      | some pays => some (same, .ran es.length (pays.foldl (· + ·) 0))
+    | _, _ => none
   | .hdrop h =>
     if h ≥ maxH then none else
     match v.slots.find? (fun s => s.h == h) with
@@ -1638,7 +1665,8 @@ def plan (op : KOp) (v : View) : Option (Upd × KOut) :=
       some ({ same with writes := ws, slots := v.slots.filter (fun x => !(x.h == h)), tls := v.tls.filter (fun x => !(x.1.1 == h)) }, .unit)
 
 def opHolder : KOp → Option Nat
-  | .hnew h _ | .hput h _ _ _ | .hget h _ | .hrem h _ | .hrel h _ | .hshrink h _ | .hreserve h _ | .hread h | .hdrop h | .hdel h => some h
+  | .hnew h _ | .hput h _ _ _ | .hget h _ | .hrem h _ | .hrel h _ | .hshrink h _ | .hreserve h _ | .hread h | .hdrop h | .hdel h
+  | .hrun h => some h
   | .hchurn _ | .gc => none
 
 /-- what the operation can see: the holder variables, thread-local storage, and the blocks reachable from its holder -/
